@@ -26,3 +26,5 @@ EQUIVALENT = [
     ('flatnonzero', A, "    return np.nonzero(np.isin(spike_clusters, clusters))[0]", "    return np.flatnonzero(np.isin(spike_clusters, clusters))"),
     ('where', A, "    idx = np.nonzero(diff > 0)[0]", "    idx = np.where(diff > 0)[0]"),
 ]
+BREAKING.append(('last group sliced from the sort permutation', 'phylib/io/array.py', "    spikes_in_clusters[clusters[-1]] = abs_spikes[idx[-1]:]", "    spikes_in_clusters[clusters[-1]] = rel_spikes[idx[-1]:]", ['C07.A1']))
+EQUIVALENT.append(('default ids folded into a conditional', 'phylib/io/array.py', "    abs_spikes = spike_ids[rel_spikes]", "    abs_spikes = rel_spikes if spike_ids is None else spike_ids[rel_spikes]"))
